@@ -93,7 +93,7 @@ def monitors_child(rec):
 
 def run(tier):
     r = Run('C03', tier, level='other')
-    cm.run_kernels(r, cm.kernels('c_crps', 'c_crps#decomp'))
+    cm.run_kernels(r, cm.kernels('c_crps', 'c_crps#decomp', 'c_crps#uncertainty'))
     try:
         from vf import pproof, engp
         obls, npaths = wrapper_obligations()
@@ -109,7 +109,8 @@ def run(tier):
                       'doubles as reals: the identities hold exactly in real arithmetic; in float64 they hold to rounding (bounded monitor, relative 1e-10)',
                       'crps == mean(E|X-y| - 0.5 E|X-X\'|) (Hersbach eq. 26-28 vs the kernel form) is NOT proved: bounded monitor only']
     r.explanation = ('proved (Engine C): crps == reliability + potential, resolution == uncertainty - potential, reliability / potential / uncertainty >= 0 for all sizes; '
-                     'bounded: equality with the definition, climatology, invariances, missing observations')
+                     'c_crps#uncertainty: the uncertainty term is the (weighted) sum over the pairs of observations of w_i w_k |obs_k - obs_i|, i.e. the CRPS of '
+                     'the observed climatology (products compared structurally); bounded: equality of crps with the definitional double sum, invariances, missing observations')
     return r.finish()
 
 
